@@ -193,3 +193,9 @@ LEVEL_TEXT = ("Spec/VecSpec.v states the README rule as a position-wise function
               "each result is compared with the proven model. On the pinned tree the property was REFUTED (8 repairs, fixes/C09-01..08): two names bound to foreign functions, loops indexed the top vector with the second vector's indices (panic / ignored elements for unequal lengths), offset overflow, ROTATE on empty, NaN in SORT, SUM/MEAN overflow, SINE with negative length, INTVECTOR element overflow.")
 LEVEL_NOTE = ("Trusted: Coq kernel, extraction, driver, harness, generators; Flocq instance of f32 arithmetic validated by C04's f32 stream; libm trusted (oracle). Theorems closed under the global context. "
               "The float SORT theorem is conditional on the comparison being a total preorder (true for binary32, not provable for an abstract FloatOps). The checker is `run.check` (observed = proven model), the specification functions themselves are proven equal to the model, not re-evaluated on the wire.")
+
+
+def extra(ctx):
+    # "Every vector instruction name dispatches to its own operation": the registered names are the model's
+    import vcheck
+    vcheck.check_registry(ctx, prefix=None)
